@@ -11,7 +11,7 @@ pub fn def() -> PropDef {
     PropDef {
         info: PropInfo {
             id: "C13",
-            rule: "texts of 1-8 lines; each line = a mnemonic from the documented table (every mnemonic incl. 32/64 and b/h/w/dw suffixes) with operands of the right shape (90%), any operand list incl. too many (5%) or a bogus mnemonic (5%); registers 0-15 and 16+, offsets in/around [-32768,32767], immediates in/around [-2^31,2^31-1], all 64-bit values for lddw; numbers spelled decimal or hex, optional '+', upper/lower case, leading zeros; varied blanks, tabs, CRLF, line breaks after the mnemonic and after commas, several instructions per line, leading whitespace; long sources of 200-4000 instructions (up to ~60 KiB) made by cycling over 1-8 generated lines; about one line in six repeats an earlier line (usually the one just before it). Oracle: table-driven reference assembler over the abstract syntax (independent encoder): Ok(bytes) must match exactly, Err must be Err. Non-trivial = text with >= 2 instructions or a negative / hex / boundary operand; distinct by hash of the text.",
+            rule: "texts of 1-8 lines; each line = a mnemonic from the documented table (every mnemonic incl. 32/64 and b/h/w/dw suffixes) with operands of the right shape (90%), any operand list incl. too many (5%) or a bogus mnemonic (5%); registers 0-15, 16+ and numbers around 2^32, 2^63 and 2^64, offsets in/around [-32768,32767], immediates in/around [-2^31,2^31-1], all 64-bit values for lddw; numbers spelled decimal or hex, optional '+', upper/lower case, leading zeros; varied blanks, tabs, CRLF, line breaks after the mnemonic and after commas, several instructions per line, leading whitespace; long sources of 200-4000 instructions (up to ~60 KiB) made by cycling over 1-8 generated lines; about one line in six repeats an earlier line (usually the one just before it). Oracle: table-driven reference assembler over the abstract syntax (independent encoder): Ok(bytes) must match exactly, Err must be Err. Non-trivial = text with >= 2 instructions or a negative / hex / boundary operand; distinct by hash of the text.",
             assumptions: &["reference assembler harness/vrun/src/asmref.rs states the documented syntax correctly", "hexadecimal literals >= 2^63 are only used for lddw (DESIGN 6.3)"],
         },
         run,
